@@ -22,6 +22,8 @@ structure DS where
   everPut : List (Nat × String) := []   -- (key, len:digest) of every accepted put, newest first
   prevRadius : Nat := maxRadius
   prevN : Option Nat := none            -- number of items the implementation reported last
+  prevPersisted : Option Nat := none    -- usage figure on disk the implementation reported last
+  refusedSince : Nat := 0               -- refused puts since the last accepted one
   opened : Bool := false
 
 def hex64 (n : Nat) : String := hexNat n 64
@@ -60,7 +62,7 @@ def keysOf (prop : String) : List String :=
   else ["n", "held", "persisted", "radius", "maxkept", "dropped", "mindropped"]
 
 def clausesOf (prop : String) : List String :=
-  if prop == "C04" then ["get_only_put", "get_returns_stored_until_pruned", "returned_bytes_stable", "put_error", "pruned_item_stays_pruned"]
+  if prop == "C04" then ["get_only_put", "get_returns_stored_until_pruned", "returned_bytes_stable", "put_error", "pruned_item_stays_pruned", "refused_put_changes_nothing"]
   else if prop == "C05" then ["counter_ge_held", "held_le_cap", "prune_frees_5pct", "farthest_first", "put_error", "counter_ge_held_concurrent",
     "counter_ge_held_put_during_prune_sync", "put_returns"]
   else if prop == "C06" then ["retained_within_radius", "radius_antitone", "refusal_exact", "radius_changes_only_by_own_prune",
@@ -68,7 +70,7 @@ def clausesOf (prop : String) : List String :=
   else if prop == "C17" then ["open_radius_max_when_empty", "counter_ge_held", "open_radius_max_unless_over_95pct"]
   else ["get_only_put", "get_returns_stored_until_pruned", "returned_bytes_stable", "put_error", "counter_ge_held", "held_le_cap", "prune_frees_5pct",
         "farthest_first", "retained_within_radius", "radius_antitone", "refusal_exact", "open_radius_max_when_empty", "radius_changes_only_by_own_prune",
-        "counter_ge_held_put_during_prune_sync", "put_returns", "radius_only_shrinks_in_both_byte_orders", "open_radius_max_unless_over_95pct", "pruned_item_stays_pruned"]
+        "counter_ge_held_put_during_prune_sync", "put_returns", "radius_only_shrinks_in_both_byte_orders", "open_radius_max_unless_over_95pct", "pruned_item_stays_pruned", "refused_put_changes_nothing"]
 
 def stepAll (d : DS) (toks : List String) (impl : String) : DS × Res :=
   let it := words impl
@@ -76,7 +78,8 @@ def stepAll (d : DS) (toks : List String) (impl : String) : DS × Res :=
   | some "open" =>
     let cap := kvNat toks "cap"
     let le := kv toks "endian" != "be"
-    let d' : DS := { st := StX.empty cap, le := le, node := unhex (kv toks "node"), opened := true, prevN := some (kvNat it "n") }
+    let d' : DS := { st := StX.empty cap, le := le, node := unhex (kv toks "node"), opened := true, prevN := some (kvNat it "n"),
+                       prevPersisted := if (kv it "persisted") != "" then some (kvNat it "persisted") else none }
     (d', { model := "ok " ++ snap d'.st, tags := ["open"], nontrivial := false })
   | some "put" =>
     let id := unhex (kv toks "id")
@@ -102,11 +105,19 @@ def stepAll (d : DS) (toks : List String) (impl : String) : DS × Res :=
     let minDropped := if r.2 == .ok && dropped > 0 then
         match ((ins x d.st.items).drop r.1.items.length).head? with | some e => hex64 e.be | none => "-"
       else "-"
+    -- "a refused put changes nothing observable": an accepted put that prunes nothing adds exactly its own size to the usage
+    -- figure on disk; if it does not, and refused puts lie between it and the previous accepted one, they left a trace
+    let refusedTrace := match d.prevPersisted with
+      | some p => if accepted && kv it "dropped" == "0" && d.refusedSince > 0 && (kv it "persisted") != "" &&
+                     kvNat it "persisted" != p + 32 + len then ["refused_put_changes_nothing"] else []
+      | none => []
     let d' := { d with st := r.1, everPut := if r.2 == .ok then (x.be, s!"val={x.len}:{hexNat x.val.toNat 16}") :: d.everPut else d.everPut,
                        prevRadius := beVal (unhex (kv it "radius")),
-                       prevN := if (kv it "n") != "" then some (kvNat it "n") else d.prevN }
+                       prevN := if (kv it "n") != "" then some (kvNat it "n") else d.prevN,
+                       prevPersisted := if (kv it "persisted") != "" then some (kvNat it "persisted") else d.prevPersisted,
+                       refusedSince := if accepted then 0 else if it.head? == some "insufficient_radius" then d.refusedSince + 1 else d.refusedSince }
     (d', { model := s!"{res} {snap r.1} dropped={if r.2 == .ok then dropped else 0} mindropped={minDropped}",
-           monitor := mon ++ ff ++ back,
+           monitor := mon ++ ff ++ back ++ refusedTrace,
            tags := ["put", res] ++ (if dropped > 0 && r.2 == .ok then ["put-pruned"] else []) ++ (if r.1.radius < d.st.radius then ["radius-shrunk"] else [])
                    ++ (if (get d.st x.be).isSome && r.2 == .ok then ["overwrite"] else []),
            nontrivial := d.st.items.length > 0 })
@@ -143,7 +154,8 @@ def stepAll (d : DS) (toks : List String) (impl : String) : DS × Res :=
     let back := match d.prevN with
       | some p => if (kv it "n") != "" && kvNat it "n" > p then ["pruned_item_stays_pruned"] else []
       | none => []
-    ({ d with st := s', prevRadius := radius, prevN := if (kv it "n") != "" then some (kvNat it "n") else d.prevN },
+    ({ d with st := s', prevRadius := radius, prevN := if (kv it "n") != "" then some (kvNat it "n") else d.prevN,
+              prevPersisted := if (kv it "persisted") != "" then some (kvNat it "persisted") else d.prevPersisted, refusedSince := 0 },
      { model := "ok " ++ snap s', monitor := mon ++ back, tags := ["reopen"] })
   | some "twostore" =>
     -- a second store in the same process that never pruned keeps the maximum radius whatever the first one does, and a
